@@ -789,8 +789,8 @@ func viaChild(in input, raw json.RawMessage) lib.Case {
 	var a answer
 	select {
 	case a = <-ans:
-	case <-time.After(5 * time.Minute):
-		a = answer{nil, fmt.Errorf("no answer within 5 minutes")}
+	case <-time.After(2 * time.Minute):
+		a = answer{nil, fmt.Errorf("no answer within 2 minutes")}
 	}
 	if a.err == nil {
 		var res lib.Case
@@ -824,6 +824,9 @@ func childLoop() {
 			panic(err)
 		}
 		os.Stdout.Write(append(append([]byte(casePrefix), b...), '\n'))
+		if strings.Contains(c.Class, "+stuck") {
+			return // this process holds a wedged server: the next case gets a fresh one
+		}
 	}
 }
 
